@@ -64,6 +64,7 @@ bool World::tolerate_failure(bool is_failure_value) {
 }
 void World::noop(const Step &st, const char *why) {
     stats.noops++;
+    stats.probes["noop_" + st.op]++;
     log.add("noop " + st.op + " (" + why + ")");
 }
 bool World::step_is_judged() const {
